@@ -2239,7 +2239,8 @@ namespace awkward {
                  nextcontent.get()->getitem_next(nexthead,
                                                  nexttail,
                                                  nextadvanced),
-                 array.shape());
+                 array.shape(),
+                 lenstarts);
       }
       else {
         return nextcontent.get()->getitem_next(nexthead,
